@@ -57,12 +57,20 @@ package utils
 // an account object is a vesting account (of any kind)
 //@ ghost macro accIsVesting(account sdk.AccountI) bool = typeof(account) == type(*vestingtypes.BaseVestingAccount) || implements(account, type(vesting.VestingAccount))
 
-// The guard as the code implements it: module accounts are never destroyable, other non-vesting accounts always are; for
-// a vesting account the answer depends on the WALL CLOCK (time.Now()), which this function reads itself — it has no
-// block-time input. The block-time statement of property C15 is on the caller (x/evm/vm DestroyAccount).
+// The guard, judged at time `at` (the block time when called from the StateDB): module accounts are never destroyable,
+// vesting accounts (any kind) exactly when their vesting period has ended at `at`, every other account always.
+//@ import time "time"
+//@ func CheckIfAccountIsSuitableForDestroyingAtTime(account sdk.AccountI, at time.Time) (destroyable bool, reason string)
+//@   modifies nothing
+//@   ensures[C15.guard_module] implements(account, type(sdk.ModuleAccountI)) ==> !destroyable
+//@   ensures[C15.guard_plain_accounts] (!implements(account, type(sdk.ModuleAccountI)) && !accIsVesting(account)) ==> destroyable
+//@   ensures[C15.guard_vesting_at_time] (!implements(account, type(sdk.ModuleAccountI)) && accIsVesting(account)) ==> (destroyable == (accObjEndTime[payload(account)] <= timeUnix(at)))
+//@   ensures[C15.guard_reason] !destroyable ==> len(reason) > 0
+//@   panics[C15.guard_nil] iff account == nil || payload(account) == nil
+
+// The one-argument form judges at the wall clock; it is not used on the execution path any more.
 //@ func CheckIfAccountIsSuitableForDestroying(account sdk.AccountI) (destroyable bool, reason string)
 //@   modifies nothing
 //@   ensures[C15.guard_module] implements(account, type(sdk.ModuleAccountI)) ==> !destroyable
 //@   ensures[C15.guard_plain_accounts] (!implements(account, type(sdk.ModuleAccountI)) && !accIsVesting(account)) ==> destroyable
-//@   ensures[C15.guard_reason] !destroyable ==> len(reason) > 0
 //@   panics[C15.guard_nil] iff account == nil || payload(account) == nil
